@@ -279,22 +279,36 @@ def eval_pointlist(fam, pts):
 
 
 def families(tier):
-    if tier == 'quick':
-        bodies, params = A.QUICK_BODIES, (-1, 0, F(1, 2), 2)
-    else:
-        bodies = list(A.POLYGONS) + list(A.POLYHEDRA)
-        params = (-2, -1, F(-1, 2), 0, F(1, 2), 1, 2)
     fams = []
-    for pose in A.poses(tier):
-        for b in bodies:
-            fams.append(FlatBody(b, pose, params))
-        fams.append(PointList(pose))
-    fams = A.with_int_mode(fams, tier)
     if tier == 'quick':
+        params = (-1, 0, F(1, 2), 2)
+        for pose in A.poses(tier):
+            for b in A.QUICK_BODIES:
+                fams.append(FlatBody(b, pose, params))
+            fams.append(PointList(pose))
+        fams = A.with_int_mode(fams, tier)
         for b in ('triangle', 'hexagon'):
             fams.append(FlatBody(b, A.P4, params))
-    for b in (('triangle', 'tetrahedron') if tier == 'quick' else A.QUICK_BODIES + ['square', 'pyramid']):
-        fams.append(MovedBody(b, A.P1, params, 7 if tier == 'quick' else 2))
+        moved = ('triangle', 'tetrahedron')
+        step = 7
+    else:
+        # budget: every body under the lattice and the first oblique pose, the quick bodies under every pose and in
+        # every numeric / constructor-form mode
+        params = (-2, -1, 0, F(1, 2), 1, 2)
+        wide = [b for b in list(A.POLYGONS) + list(A.POLYHEDRA) if b not in A.QUICK_BODIES]
+        core_f, rest = [], []
+        for pose in A.poses(tier):
+            for b in A.QUICK_BODIES:
+                core_f.append(FlatBody(b, pose, params))
+            core_f.append(PointList(pose))
+            if pose.name in ('P0', 'PZ', 'P1'):
+                for b in wide:
+                    rest.append(FlatBody(b, pose, (-1, 0, F(1, 2), 2)))
+        fams = A.with_int_mode(core_f, tier) + rest
+        moved = A.QUICK_BODIES + ['square', 'pyramid']
+        step = 2
+    for b in moved:
+        fams.append(MovedBody(b, A.P1, params, step))
     return fams
 
 
